@@ -141,6 +141,7 @@ def float_to_z3(x):
 # executor
 # --------------------------------------------------------------------------------------
 class Ctx:
+    truncated_forks = 0
     cur = None
 
     def __init__(self, preset=(), pending=None, branch_timeout_ms=3000, max_int_fork=16):
@@ -299,7 +300,20 @@ class Ctx:
             k = d[1]
         else:
             found = []
-            while True:
+            # an unbounded value (|x| may exceed 1000): explore two small alternatives only and say so
+            stb = "unsat"
+            if self.concretise:   # hunt mode only (see harness.run_unit): never on the exhaustive run
+                stb, _ = solve(self.hyps() + [z3.Or(x > 1000, x < -1000)], timeout_ms=self.branch_timeout_ms, want_model=False, use_axioms=False)
+            if stb == "sat":
+                for _rep in range(2):
+                    st, model = solve(self.hyps() + [x > -4, x < 4] + [z3.Not(cond(k)) for k in found], timeout_ms=self.branch_timeout_ms * 2, use_axioms=False)
+                    if st != "sat":
+                        break
+                    found.append(int(model.value(x)))
+                if found:
+                    self.notes.append(f"int() of an unbounded value: only the alternatives {found} explored")
+                    Ctx.truncated_forks += 1
+            while not (stb == "sat" and found):
                 t = time.time()
                 self.queries += 1
                 st, model = solve(self.hyps() + [z3.Not(cond(k)) for k in found], timeout_ms=self.branch_timeout_ms * 4, use_axioms=self.axioms_in_trunc)
